@@ -291,6 +291,16 @@ class World(object):
             else:
                 h.node.forceLogCompaction()
                 self.fault('forced_compaction')
+        elif kind == 'childkill':
+            # the dump writer (fork child) alone dies by a signal (out-of-memory killer, operator): its remaining
+            # storage ops never happen, the parent's waitpid reports a process terminated by signal 9
+            h = self.hosts[ev[2]]
+            pids = h.forkemu.pending_children()
+            if not pids:
+                out = 'none'
+            else:
+                h.forkemu.kill(pids[0], 9, by='signal')
+                self.fault('fork_child_killed_by_signal')
         elif kind == 'child':
             h = self.hosts[ev[2]]
             pids = h.forkemu.pending_children()
